@@ -508,3 +508,139 @@ def _declining(fn, label):
 
 task_L4F = _declining(_task_L4F, "L4F")
 task_L2F = _declining(_task_L2F, "L2F")
+
+
+# -------------------------------------------------------------------------------------------------
+# ANS (C16): one iteration of the question loop for an arbitrary typed answer
+# -------------------------------------------------------------------------------------------------
+
+
+def _ci(word):
+    """case-insensitive regular expression of an ASCII word"""
+    parts = []
+    for ch in word:
+        lo, up = ch.lower(), ch.upper()
+        parts.append(z3.Re(lo) if lo == up else z3.Union(z3.Re(lo), z3.Re(up)))
+    return z3.Concat(*parts) if len(parts) > 1 else parts[0]
+
+
+def _task_ANS(version, metrics_subset=None):
+    chk = Check("C16")
+    vnum = {2: 2, 3: 3.1, 4: 4.0}[version]
+    label0 = "v%d ANS (free answer)" % version
+    imod = real_module("cvss.interactive")
+    cmod = real_module("cvss.constants%d" % version)
+    fn = imod.ask_interactively
+    node, lines = func_ast(fn)
+    for_node = None
+    for st in node.body:
+        if isinstance(st, ast.For) and any(isinstance(x, ast.While) for x in st.body):
+            for_node = st
+    if for_node is None:
+        raise S.Unsupported("ask_interactively has no 'for metric' loop containing a while loop")
+    widx = [i for i, x in enumerate(for_node.body) if isinstance(x, ast.While)][0]
+    while_node = for_node.body[widx]
+    g = grammar(version)
+    table = dict((met, list(vals)) for met, vals in g["metrics"])
+    nd = "ND" if version == 2 else "X"
+    raw = S.RawStr("answer")
+    a = raw.core  # the stripped answer: any string without leading / trailing white space
+    t0 = time.time()
+    total_paths = 0
+    outcomes = {}
+    ex = S.Executor(imod)
+    ex.deadline = time.time() + budget_s()
+    ex.encoded["%s:%s (body of the question loop)" % (fn.__module__, fn.__qualname__)] = (lines[0] + while_node.lineno - node.lineno, lines[0] + while_node.end_lineno - node.lineno)
+    lem = Lemma(chk, label0, [])
+    lem.dec.first_ms = min(lem.dec.timeout_ms, 40000)
+    metrics = [m for m, _ in g["metrics"]]
+    if metrics_subset is not None:
+        metrics = [m for m in metrics if m in metrics_subset]
+    for metric in metrics:
+        label = "%s %s" % (label0, metric)
+        lem.label = label
+        legal = table[metric]
+
+        def run(ex, metric=metric):
+            vector = []
+            glob = dict(fn.__globals__)
+            glob["string_input"] = lambda: raw
+            env = {"version": vnum, "all_metrics": True, "no_colors": True, "vector": vector, "$globals": glob,
+                   "METRICS_ABBREVIATIONS": cmod.METRICS_ABBREVIATIONS, "METRICS_MANDATORY": cmod.METRICS_MANDATORY, "METRICS_VALUE_NAMES": cmod.METRICS_VALUE_NAMES}
+            ex.assign(for_node.target, metric, env)
+            ex.exec_block(for_node.body[:widx], env)
+            ex.path.vector = vector
+            try:
+                ex.exec_block(while_node.body, env)
+            except S._Continue:
+                pass
+            return ("normal",)
+
+        def mk_replay(model, what, metric=metric):
+            return {"kind": "c16_answer", "version": version, "metric": metric, "answer": S.py_string(model, a), "what": what}
+
+        paths = ex.explore(run)
+        total_paths += len(paths)
+        # independent oracle (regular expressions; no case-mapping or strip encoding involved)
+        match = {v: z3.InRe(a, _ci(v)) for v in legal}
+        if nd in legal:
+            match[nd] = z3.Or(match[nd], a == z3.StringVal(""))
+        accept = z3.Or(list(match.values()))
+        for p in paths:
+            o = p.outcome
+            outcomes[describe_outcome(o)] = outcomes.get(describe_outcome(o), 0) + 1
+            if o[0] == "unsupported":
+                res, _ = lem.is_feasible(p)
+                if res != "unsat":
+                    chk.inconclusive.append("%s: unsupported construct on a feasible path: %s" % (label, o[1]))
+                continue
+            if o[0] == "raise":
+                lem.must_be_unsat(p, [], "the question loop raises %s" % type(o[1]).__name__, mk_replay)
+                continue
+            if o[0] == "return":
+                lem.must_be_unsat(p, [], "the question loop returns from the builder", mk_replay)
+                continue
+            vec = p.vector
+            if o[0] == "normal":
+                # question repeated: nothing may have been recorded and the answer must be illegal
+                if vec:
+                    lem.must_be_unsat(p, [], "a rejected answer still appends %r" % (vec,), mk_replay)
+                lem.must_be_unsat(p, [accept], "a legal answer (case-insensitive, surrounding white space ignored, empty = Not Defined) is rejected", mk_replay)
+                continue
+            # break: accepted
+            if len(vec) != 1 or not isinstance(vec[0], str):
+                if len(vec) == 1 and isinstance(vec[0], S.SStr):
+                    want = z3.Or([z3.And(match[v], vec[0].z == z3.StringVal(metric + ":" + v)) for v in legal])
+                    lem.must_be_unsat(p, [z3.Not(want)], "an accepted answer records metric:value in the standard's spelling of the matched legal value", mk_replay)
+                else:
+                    lem.must_be_unsat(p, [], "an accepted answer appends %r" % (vec,), mk_replay)
+                continue
+            rec = vec[0]
+            vals = [v for v in legal if rec == metric + ":" + v]
+            if not vals:
+                lem.must_be_unsat(p, [], "an accepted answer records %r (no legal value of %s)" % (rec, metric), mk_replay)
+            else:
+                lem.must_be_unsat(p, [z3.Not(match[vals[0]])], "%r is recorded for an answer that is not that value" % rec, mk_replay)
+        # every legal value can be selected (vacuity / selectability): a feasible accepting path per value
+        for v in legal:
+            ok = False
+            for p in paths:
+                if p.outcome[0] == "break" and p.vector == [metric + ":" + v]:
+                    res, model = lem.is_feasible(p)
+                    if res == "sat":
+                        ok = True
+                        if len(chk.witnesses) < 6:
+                            chk.witnesses.append({"lemma": label, "value": v, "answer": S.py_string(model, a)})
+                        break
+            if not ok:
+                chk.harness_errors.append("%s: no feasible accepting path records %s:%s" % (label, metric, v))
+        if time.time() > lem.deadline:
+            chk.inconclusive.append("%s: time budget exceeded" % label0)
+            break
+    lem.label = label0
+    second_solver(chk, lem.dec, label0)
+    finish_lemma(chk, ex, lem, "%s %s..%s" % (label0, metrics[0], metrics[-1]), [None] * total_paths, outcomes, time.time() - t0)
+    return chk.to_dict()
+
+
+task_ANS = _declining(_task_ANS, "ANS")
